@@ -217,9 +217,9 @@ impl C03Deep {
             let tail = if shape.ends_with("-open") { "none".to_string() } else { rng.pick(&super::deep::TAILS).to_string() };
             (shape, tail)
         };
-        // runs 1..=3 (array-open, object-closed, object-open): one step past 2^21 — growth policies of the
+        // run 1 (array-open): one step past 2^22; runs 2, 3 (object-closed, object-open): one step past 2^21 — growth policies of the
         // explicit stack change at powers of two, and the largest one below the usual 2·10^6 is 2^20
-        let depth = if run == 0 { 1_000_000 } else if (1..=3).contains(&run) { (1 << 21) + 1 } else if self.thorough { *rng.pick(depths_thorough) } else { *rng.pick(depths_quick) };
+        let depth = if run == 0 { 1_000_000 } else if run == 1 { (1 << 22) + 1 } else if (2..=3).contains(&run) { (1 << 21) + 1 } else if self.thorough { *rng.pick(depths_thorough) } else { *rng.pick(depths_quick) };
         let stack_kib = *rng.pick(&[64u64, 128, 256]);
         let tail_at = match rng.below(5) { 0 => depth / 2, 1 => depth.saturating_sub(1), 2 => 1.min(depth), 3 => depth, _ => rng.range(0, depth) };
         let needs_iter = tail.contains("fail");
